@@ -464,7 +464,7 @@ func init() {
 		})
 	coreCheck("C36",
 		"token worlds where users grant ICS-20 transfer authorizations (1-2 channel allocations, 1-2 denomination limits incl. unbounded, optional receiver allow lists, memo lists none / * / explicit) and grantees execute transfers through authz MsgExec around every boundary: exactly the remaining limit, one above, one below, the entire-balance sentinel, receivers on and off the list, allowed and other memos, channels without allocation — interleaved with ordinary traffic, relays and failing transactions. Oracle: an accepted exec must be allowed by the model (grant ledger: granted minus accepted per channel and denomination); after every block the stored remaining limits equal the model, exhausted allocations and grants are gone, a refused exec leaves the grant unchanged. Non-trivial case = distinct (accepted/refused, model verdict and reason)",
-		[]string{"gexec:", "grant:"}, 96, 1200,
+		[]string{"gexec:", "grant:"}, 192, 1600,
 		func(o *CoreOptions, r *rand.Rand, tier string) {
 			tokenOptions(o, r)
 			o.WGrant = 26
@@ -560,7 +560,7 @@ func init() {
 		})
 	clCheck("C23",
 		"same worlds with validators signing headers for heights between stored neighbours with times shifted by +-1 s, +10 min, -1 h (full power so that they verify); invariant after every block: stored timestamps strictly increase with height; an accepted header that would break this freezes the client and is not stored. Non-trivial case = distinct (message kind, outcome, model verdict)",
-		[]string{"hdr:"}, 96, 1400,
+		[]string{"hdr:"}, 192, 1600,
 		func(o *CLOptions, r *rand.Rand) { o.WFork, o.WUpd = 30, 26 },
 		func(ck *sim.Check) {
 			ck.RequiredProbes = []string{"update_froze_client_on_time_violation"}
